@@ -755,6 +755,22 @@ theorem C07_reference_checks (env : Env) (input : Str) (li : Loc (PIngredient α
   obtain ⟨h1, h2, h3⟩ := ingrRefChecks_reports env input li igr refTo defn defLoc s
   exact ⟨h1, h2, h3, fun rq dq hr hd hne => ingrRefChecks_text env input li igr refTo defn defLoc s rq dq hr hd hne⟩
 
+/-- the same for a resolved cookware reference (`cwRefChecks`): only appends diagnostics; a note ⇒
+    `note-in-reference`; a quantity on a reference whose definition (made outside a step) has one ⇒
+    `conflicting-ref-quantity` -/
+theorem C07_reference_checks_cookware (input : Str) (lc : Loc (PCookware α)) (cw : Cookware (ScalableValue α))
+    (defn : Cookware (ScalableValue α)) (defLoc : Loc (PCookware α)) (s : Col α) :
+    (∃ l, (cwRefChecks input lc cw defn defLoc s).2.diags.toList = s.diags.toList ++ l) ∧
+    (∀ n, lc.val.note = some n →
+      (⟨.error, .analysis, "note-in-reference", [noteRefSpan input n.span,
+        (defLoc.val.note.map (·.span)).getD (Span.pos defLoc.span.stop)]⟩ : Diag) ∈
+        (cwRefChecks input lc cw defn defLoc s).2.diags.toList) ∧
+    (defn.quantity.isSome = true → cw.quantity.isSome = true → crcDefinedInStep defn = false →
+      (⟨.error, .analysis, "conflicting-ref-quantity",
+        [(lc.val.quantity.map (·.span)).getD ⟨0, 0⟩, defLoc.span]⟩ : Diag) ∈
+        (cwRefChecks input lc cw defn defLoc s).2.diags.toList) :=
+  cwRefChecks_reports input lc cw defn defLoc s
+
 /-! non-vacuity: a definition made outside a step -/
 example : ircDefinedInStep (⟨[], none, none, none, none, ⟨.definition [] false, none⟩, Modifiers.empty⟩ :
     Ingredient (ScalableValue Rat)) = false := rfl
